@@ -37,6 +37,23 @@ CLAIMED = {
              "(3 undecided R3 instances, bounded by trailer_size()), arbitrary building-API histories beyond R2, uint32 wrap "
              "of sizes. 'Fewer bytes written than counted' is noted, not a violation (zero gap, no overwrite).",
     ),
+    "C03": dict(
+        category="other",
+        design_ref="DESIGN.md section 3 / C03",
+        technique="static analysis: guard facts on the clang CFG (tag stores), switch tables read as finite maps (E-TABLE), "
+                  "symbolic read/write forms and member sequences of constructors and serialisers (E-STREAMFX), value-set "
+                  "of wire-derived selectors (known bits) against switch arms",
+        text="Structural part. Decides: (R1) the 7 serialisers that store a looked-up next-protocol tag do so only when the "
+             "lookup succeeded (found and fixed SNAP, SLL, IPSecAH); (R2) class->tag and tag->class tables are mutual "
+             "inverses for every layer class and pdu_from_flag(PDUType) creates the class with that flag (47 rows); (R3) "
+             "every derived from-buffer constructor skips exactly the bytes its base constructors consumed (20 chains) and "
+             "the members a constructor chain reads are, in order and width, those write_serialization writes (51 "
+             "classes); (R4) switches on wire-derived selectors on the serialisation path cover every value (found and "
+             "fixed LLC's I-frame format).",
+        note="NOT decided: value-dependent losses (ICMP extension recognition by checksum, DHCP END/PAD growth, option "
+             "contents and their order beyond the raw option list), byte-for-byte idempotence, variable-length tails after "
+             "the first option loop of a constructor.",
+    ),
     "C06": dict(
         category="other",
         design_ref="DESIGN.md section 3 / C06",
